@@ -66,6 +66,8 @@ func loadFindings() []Finding {
 	return ff.Findings
 }
 
+var probesRun int
+
 func cmdCheck(args []string) int {
 	fs := flag.NewFlagSet("check", flag.ExitOnError)
 	tier := fs.String("tier", "", "quick|thorough")
@@ -97,6 +99,20 @@ func cmdCheck(args []string) int {
 		return 2
 	}
 	e := mustLoad()
+	if os.Getenv("STICKVC_NOPROBES") == "" {
+		// the assumed library contracts must leave every probed situation satisfiable (else proofs may be vacuous)
+		bad, n := runProbes(e, 10*time.Second)
+		probesRun = n
+		if len(bad) > 0 {
+			for _, b := range bad {
+				fmt.Fprintln(os.Stderr, "ENGINE ERROR: contract probe failed:", b)
+			}
+			return 2
+		} else if n == 0 {
+			fmt.Fprintln(os.Stderr, "ENGINE ERROR: no contract probes found (zz_probes_verif.go missing?)")
+			return 2
+		}
+	}
 	findings := loadFindings()
 
 	type fnInfo struct {
@@ -394,6 +410,7 @@ func cmdCheck(args []string) int {
 		"samples":                  samples,
 		"explanation":              expl,
 		"degraded":                 degraded,
+		"library_contract_probes":  fmt.Sprintf("%d situations probed, all satisfiable under the assumed library contracts", probesRun),
 		"not_claimed":              map[string]interface{}{"obligations": unclaimed, "why": pc.ExcludeWhy},
 		"thorough_tier_only":       slowSkipped,
 		"inlined_into_callers":     inlined,
@@ -433,3 +450,53 @@ func maxInt(a, b int) int {
 }
 
 func round2(f float64) float64 { return float64(int(f*100+0.5)) / 100 }
+
+
+// runProbes: reachability probes of the assumed library contracts (functions *.verifProbe* in /repo, build tag
+// verif). Each probe returns true in a situation that really occurs; with the synthetic postcondition
+// "mustfail: !result" the obligation must be REFUTED (sat). A probe that is proved instead means an assumed contract
+// is inconsistent or too strong - every proof using it would be suspect - and is an engine error, not a verdict.
+func runProbes(e *Engine, timeout time.Duration) (bad []string, n int) {
+	var keys []string
+	for k := range e.funcs {
+		if strings.Contains(k, ".verifProbe") {
+			keys = append(keys, k)
+		}
+	}
+	sort.Strings(keys)
+	var obls []*Obligation
+	for _, k := range keys {
+		ct := e.contracts.Funcs[k]
+		if ct == nil {
+			ct = &FuncContract{Key: k, Loops: map[int]*LoopSpec{}}
+			e.contracts.Funcs[k] = ct
+		}
+		if len(ct.Ensures) == 0 {
+			ex, err := parseSpecExpr("!result")
+			if err != nil {
+				bad = append(bad, k+": "+err.Error())
+				continue
+			}
+			ct.Ensures = append(ct.Ensures, Clause{Label: "mustfail", Src: "!result", Expr: ex, Line: "probe"})
+		}
+		// loops of probes carry no invariant: the trivial one
+		fc, err := e.genFunction(e.funcs[k])
+		if err != nil {
+			bad = append(bad, k+": "+err.Error())
+			continue
+		}
+		for _, o := range fc.obls {
+			if o.Kind == "post" && strings.Contains(o.Name, "mustfail") {
+				obls = append(obls, o)
+			}
+		}
+	}
+	runObligations(obls, e.u, timeout, false)
+	for _, o := range obls {
+		n++
+		if o.Status != "sat" {
+			bad = append(bad, fmt.Sprintf("%s: %s (the probed situation is not satisfiable under the assumed contracts)", o.Name, o.Status))
+		}
+	}
+	return bad, n
+}
